@@ -22,6 +22,13 @@ import JetVerif.Lemmas.IfChain
 namespace JetVerif.RangeChain
 open JetVerif JetVerif.Eval JetVerif.IfChain
 
+/-- `>>=` of the evaluator's monad is associative -/
+theorem bind_assoc {α β γ} (m : M α) (f : α → M β) (g : β → M γ) :
+    (m >>= f) >>= g = m >>= fun a => f a >>= g := by
+  funext rt
+  simp only [bind_def]
+  cases m rt <;> rfl
+
 /-! ### the fold -/
 
 /-- `iterate step i xs`: run `step i x₀`, `step (i+1) x₁`, … one after the other, threading the runtime;
@@ -395,5 +402,102 @@ theorem run_rangeStmt0_init (m : Nat) (env : Env) (path name : Bytes) (bs : List
          | [] => (fin.getD []).map litChunk
          | _ :: _ => repeated es.length (bs.map litChunk))) :=
   run_range_texts m env _ _ _ name bs fin _ v es ifc (by rw [lookupVal_initRT, hx]) hv hlen
+
+/-! ### the two-variable form over a text body, from the runtime `Execute` sets up
+
+  The loop scope is a new frame; `letVar` re-assigns `k` and `v` in it each time round, the text goes to
+  `Execute`'s writer.  `Writable` is what is needed for that and is kept by every step. -/
+
+/-- the current scope exists and has a variable map; output goes to `Execute`'s writer -/
+def Writable (rt : RT) : Prop :=
+  (∃ cur rest f vs, rt.scope = cur :: rest ∧ frameAt rt cur = some f ∧ f.vars = some vs) ∧ rt.writer = .top
+
+theorem letVar_writable (n : Bytes) (v : Val) (rt : RT) (h : Writable rt) :
+    ∃ rt', letVar n v rt = .ok () rt' ∧ Writable rt' ∧ rt'.sink = rt.sink ∧ rt'.log = rt.log ∧ rt'.scope = rt.scope := by
+  obtain ⟨⟨cur, rest, f, vs, hs, hf, hv⟩, hw⟩ := h
+  refine ⟨setFrame rt cur { f with vars := some (aset n v vs) }, ?_, ⟨⟨cur, rest, { f with vars := some (aset n v vs) }, aset n v vs, hs, ?_, rfl⟩, hw⟩, rfl, rfl, rfl⟩
+  · simp [letVar, hs, hf, hv]
+  · simp only [frameAt, setFrame] at hf ⊢
+    have hlt : cur < rt.frames.length := by
+      rcases Nat.lt_or_ge cur rt.frames.length with h | h
+      · exact h
+      · rw [List.getElem?_eq_none h] at hf; cases hf
+    simp [hlt]
+
+theorem step2_texts (m : Nat) (env : Env) (loc : Loc) (k v : Bytes) (bs : List Bytes) (ifc : Bool) (i : Nat) (x : Val)
+    (rt : RT) (h : Writable rt) :
+    ∃ rt', step2 (recAt (m + 1)) env k v (bs.map (Stmt.text loc)) ifc i x rt = .ok .invalid rt' ∧ Writable rt' ∧
+      rt'.sink 0 = (bs.map litChunk).reverse ++ rt.sink 0 ∧ rt'.log = rt.log ∧ rt'.scope = rt.scope := by
+  obtain ⟨rt1, h1, w1, s1, l1, c1⟩ := letVar_writable k (.int i) rt h
+  obtain ⟨rt2, h2, w2, s2, l2, c2⟩ := letVar_writable v (elemVal ifc x) rt1 w1
+  refine ⟨appendTo rt2 rt2.writer (bs.map litChunk), ?_, ?_, ?_, ?_, ?_⟩
+  · show (letVar k (.int i) >>= fun _ => letVar v (elemVal ifc x) >>= fun _ => (recAt (m + 1)).execList env _) rt = _
+    rw [bind_ok h1, bind_ok h2, exec_texts_body]
+  · obtain ⟨⟨cur, rest, f, vs, hs, hf, hv⟩, hw⟩ := w2
+    exact ⟨⟨cur, rest, f, vs, by simpa [appendTo, hw, Wr.idx] using hs, by simpa [appendTo, hw, Wr.idx, frameAt] using hf, hv⟩,
+      by simp [appendTo_writer, hw]⟩
+  · simp [appendTo, w2.2, Wr.idx, s2, s1]
+  · simp [appendTo, w2.2, Wr.idx, l2, l1]
+  · simp [appendTo, w2.2, Wr.idx, c2, c1]
+
+theorem iterate_step2_texts (m : Nat) (env : Env) (loc : Loc) (k v : Bytes) (bs : List Bytes) (ifc : Bool) :
+    ∀ (xs : List Val) (i : Nat) (rt : RT), Writable rt →
+      ∃ rt', iterate (step2 (recAt (m + 1)) env k v (bs.map (Stmt.text loc)) ifc) i xs rt = .ok .invalid rt' ∧ Writable rt' ∧
+        rt'.sink 0 = (repeated xs.length (bs.map litChunk)).reverse ++ rt.sink 0 ∧ rt'.log = rt.log ∧ rt'.scope = rt.scope := by
+  intro xs
+  induction xs with
+  | nil => intro i rt h; exact ⟨rt, rfl, h, by simp [repeated], rfl, rfl⟩
+  | cons x xs ih =>
+    intro i rt h
+    obtain ⟨rt1, h1, w1, s1, l1, c1⟩ := step2_texts m env loc k v bs ifc i x rt h
+    obtain ⟨rt2, h2, w2, s2, l2, c2⟩ := ih (i + 1) rt1 w1
+    refine ⟨rt2, ?_, w2, ?_, by rw [l2, l1], by rw [c2, c1]⟩
+    · rw [iterate_cons_ok _ i x xs rt rt1 h1, h2]
+    · rw [s2, s1, List.length_cons, repeated_succ]; simp
+
+/-- `[{{range k, v := x}}texts[{{else}}texts']{{end}}]` from the runtime `Execute` sets up -/
+theorem run_rangeStmt2_init (m : Nat) (env : Env) (path k vn name : Bytes) (bs : List Bytes) (fin : Option (List Bytes))
+    (t : Tmpl) (vars : List (Bytes × Val)) (data : Val) (v : Val) (es : List Val) (ifc : Bool)
+    (hx : identVal env vars data name = some v) (hv : getRanger v = .ok (.sliceR es 0 ifc)) (hlen : es.length < 100000) :
+    ∃ rt', (recAt (m + 2)).execList env [rangeStmt2 path k vn name bs fin] (initRT t vars data) = .ok .invalid rt' ∧
+      rt'.sink 0 = (match es with
+         | [] => (fin.getD []).map litChunk
+         | _ :: _ => repeated es.length (bs.map litChunk)).reverse ∧ rt'.log = [] := by
+  have he : (recAt (m + 1)).evalExpr env (.ident ⟨path, 1⟩ name) (initRT t vars data) = .ok v (initRT t vars data) := by
+    rw [evalExpr_ident_init, hx]
+  rw [rangeStmt2, execList_single_range,
+    execRange_set (recAt (m + 1)) env _ _ none _ [] _ _ _ _ v es ifc rfl he hv hlen]
+  simp only [if_true]
+  -- the loop scope
+  let rtN : RT := { initRT t vars data with
+    frames := (initRT t vars data).frames ++ [{ vars := some [], blocks := t.blocks }], scope := 1 :: [0] }
+  have hN : newScope (initRT t vars data) = .ok () rtN := rfl
+  have wN : Writable rtN := ⟨⟨1, [0], { vars := some [], blocks := t.blocks }, [], rfl, rfl, rfl⟩, rfl⟩
+  unfold withNewScopeND
+  rw [bind_ok hN]
+  cases es with
+  | nil =>
+    cases fin with
+    | none => exact ⟨_, rfl, rfl, rfl⟩
+    | some f =>
+      have hb : loopRes (recAt (m + 1)) env
+          (some { loc := ⟨path, 1⟩, isLet := true, lookup := false, left := [.ident ⟨path, 1⟩ k, .ident ⟨path, 1⟩ vn],
+                  right := [.ident ⟨path, 1⟩ name] })
+          (bs.map (Stmt.text ⟨path, 1⟩)) (eFin path (some f)) ifc [] rtN =
+          .ok .invalid (appendTo rtN rtN.writer (f.map litChunk)) := exec_texts_body m env _ f rtN
+      rw [bind_ok hb]
+      exact ⟨_, rfl, by simp [appendTo, rtN, initRT, Wr.idx], rfl⟩
+  | cons x xs =>
+    have hst := iterStep_two (recAt (m + 1)) env
+      { loc := ⟨path, 1⟩, isLet := true, lookup := false, left := [.ident ⟨path, 1⟩ k, .ident ⟨path, 1⟩ vn],
+        right := [.ident ⟨path, 1⟩ name] } ⟨path, 1⟩ ⟨path, 1⟩ k vn (bs.map (Stmt.text ⟨path, 1⟩)) ifc rfl rfl
+    simp only [loopRes, hst]
+    obtain ⟨rt2, h2, w2, s2, l2, c2⟩ := iterate_step2_texts m env ⟨path, 1⟩ k vn bs ifc (x :: xs) 0 rtN wN
+    rw [bind_ok h2]
+    have hsc : rt2.scope = 1 :: [0] := c2
+    refine ⟨{ rt2 with scope := [0] }, ?_, ?_, ?_⟩
+    · simp [releaseScope, bind_def, hsc]; rfl
+    · simpa [rtN, initRT] using s2
+    · simpa [rtN, initRT] using l2
 
 end JetVerif.RangeChain
